@@ -82,7 +82,7 @@ def session_infos(ctx, specs, label):
 
 def gen_chan(ctx, family, infos, maxn=13, timeout=1800, sel=None):
     """TLC enumerates fault schedules over the given sessions (their abstract packet lists are read by the spec)."""
-    sess_file = ctx.path("sess-%s-%d-%d.ndjson" % (family, os.getpid(), next(_TLC_SEQ)))
+    sess_file = ctx.path("sess-%s-%d-%d.ndjson" % (family, os.getpid(), next(TLC_SEQ)))
     rows = [i for i in infos if (sel is None or sel(i)) and not i.get("skip")]
     # the generator only needs the packet structure
     write_ndjson(sess_file, [{"sid": i["sid"], "cfg": {"fdt_dur": i["cfg"].get("fdt_dur", 3600)},
